@@ -7,6 +7,18 @@ V = os.path.dirname(os.path.dirname(os.path.abspath(__file__)))
 TECH = "deterministic simulation with fault injection: "
 
 checks = {
+ "C02": dict(level="exploration", design="§4 C02",
+   technique=TECH + "page walks (next to past the end, previous to before the start) with a restart between pages, partition oracle over the recorded walk, unsized twin for the full page",
+   text="Seeded search over sink contents (row lengths around the page capacity, empty and trailing-empty rows, MSINK menus), sizes, separators and labels; a client walks all pages with a fresh engine per page request; the pages must partition the rows in order, carry the static part, offer next/previous exactly where they apply, every offered entry must render, and requests past either end must not be answered with a page of the node. Sampling. One defect pinned by the existing tests is a known finding.",
+   note="Trusted: output parser over sentinel templates; trailing empty rows are not compared (no glyphs)."),
+ "C15": dict(level="fault_enumeration", design="§4 C15",
+   technique=TECH + "storage-corruption fault on bytecode records: every truncation, every byte replaced by 8 values, appended garbage; two readers (engine/VM, disassembler) against an independent decoder",
+   text="For sampled valid programs using all twelve opcodes the stored record is damaged in every way of the catalogue and handed to the VM (through the resource seam, two requests) and to the disassembler; an independent decoder classifies each damaged record; no reader may panic in decoding, the disassembler must fail iff the record is malformed, the VM must fail on a truncated instruction and never report success past a malformed one. Exhaustive per program over the catalogue; programs sampled. Claimed only as a storage fault (not arbitrary byte strings, not coverage-guided fuzzing).",
+   note="Trusted: refcodec decoder written from the documentation; panics outside the decoding functions (e.g. a decoded flag index out of range) are execution semantics and only counted."),
+ "C19": dict(level="exploration", design="§4 C19",
+   technique=TECH + "2..16 session goroutines under a seeded baton scheduler (one runs at a time, next task drawn from the tape at every seam event), hand-off hidden from the race detector; solo-vs-concurrent twin, canary in shared tables, -race child processes",
+   text="Seeded search over schedules: sessions sharing only immutable application tables are served first alone, then concurrently under a scheduler that decides every interleaving from the tape; transcripts must be equal, the shared tables including a canary in the spare capacity of every bytecode slice must be untouched, and a third (quick) / all (thorough) of the worlds are re-run in a -race build in which the scheduler's own hand-offs are invisible, so that any conflicting access between two sessions is reported and replayable from the tape. Sampling over schedules.",
+   note="Trusted: baton scheduler (sched), runtime.RaceDisable around the hand-off, ThreadSanitizer's bounded history; per-session harness state so that only library state is shared."),
  "C03": dict(level="exploration", design="§4 C03",
    technique=TECH + "seeded programs x input histories with restarts and failing external calls, refinement of the recorded move history against the reference model refvm",
    text="Seeded search over generated INCMP blocks (duplicates, wildcard anywhere, relative targets) and input histories; the ordered code fetches of every request (one per successful move) must equal the routing decision of an independent reference model written from the documentation; unmatched input must land on the catch node showing the input. Sampling, not proof.",
